@@ -662,7 +662,7 @@ def parse_ties(res, rng, n_valid, n_bad):
                 'impl': meta[n_valid][3][:3]
                 if meta[n_valid][3][0] == 'err' else 'ok'})
     bad, errs = run_cases('c12_parse', HEADER, 'pcase',
-                                      'check_parse', cases, chunk=100)
+                                      'check_parse', cases, chunk=40)
     res.obligation(f'tie:parse ({len(cases)} decks: Model.parse_cells = '
                    'ParseMCNPCell.parse, per cell importance/universe/'
                    'material/density/fill/filltr/lattice/trcl + skip list)',
